@@ -87,6 +87,42 @@ def determinism_rule(F, rep):
            sample={"header_calls": hdr})
 
 
+NARROWING = ("unwrap", "expect", "ok_or", "ok_or_else", "unwrap_unchecked")
+
+
+def name_total_rule(F, rep, m, loop):
+    """an entry whose name cannot be extracted (no final component, not UTF-8) is an unknown entry: the derivation of the
+    dispatch value from the entry path must be total — no `?`, unwrap or error conversion applied to the name option"""
+    if m is None or loop is None:
+        rep.ob("reader.name-total", False, peppifmt.READ, "dispatch", "no dispatch on the entry name inside the entry loop")
+        return
+    lets = {}
+    for x in tir.walk(loop["body"]):
+        if x.get("k") == "Let" and x["pat"].get("k") == "Bind" and x.get("init"):
+            lets[x["pat"].get("id")] = x
+    root = m["scrut"]
+    seen = 0
+    while strip(root).get("k") == "Path" and strip(root).get("res") == "local" and strip(root).get("id") in lets and seen < 4:
+        let = lets[strip(root)["id"]]
+        if let.get("else"):
+            rep.ob("reader.name-total", False, peppifmt.READ, "let-else", "the dispatch value is bound with let-else: entries without a usable name take the else branch instead of being ignored")
+            return
+        root = let["init"]
+        seen += 1
+    par = safety.parents(root)
+    names = [x for x in tir.walk(root) if x.get("k") == "MethodCall" and x["method"] in ("file_name", "to_str", "to_string_lossy", "file_stem")]
+    bad = []
+    for x in names:
+        a = par.get(id(x))
+        while a is not None:
+            if a.get("k") == "Try" or (a.get("k") == "MethodCall" and a["method"] in NARROWING):
+                bad.append("%s above %s() at %s" % (a.get("method") or "?", x["method"], tir.sp(a)))
+            a = par.get(id(a))
+    rep.ob("reader.name-total", bool(names) and not bad, peppifmt.READ, "name-derivation",
+           "the entry name feeding the dispatch is narrowed by %s: an entry without a usable name is rejected instead of ignored" % (bad[:2] or "nothing recognisable (no file_name/to_str call found)"),
+           sample={"derivation": tir.pretty(root)[:160]})
+
+
 def reader_rule(F, rep):
     arms, m, loop = peppifmt.reader_arms(F)
     rep.floor("reader dispatch arms", len(arms), 7)
@@ -100,6 +136,7 @@ def reader_rule(F, rep):
         bad = [x for x in tir.walk(w["body"]) if x.get("k") in ("Ret", "Break", "Try") or (x.get("k") == "Call" and (declared(x) or "").endswith("::Err"))]
         ok = not bad
     rep.ob("reader.ignore-unknown", ok, peppifmt.READ, "wildcard", "the wildcard arm must ignore unknown entries (no error, break or return)")
+    name_total_rule(F, rep, m, loop)
     fa = arms.get("frames.arrow")
     ok = fa is not None and any(x.get("k") == "Break" for x in tir.walk(fa["body"]))
     rep.ob("reader.stop", ok, peppifmt.READ, "frames.arrow", "the reader must stop at frames.arrow (it is the last entry)")
